@@ -471,6 +471,10 @@ pub fn proto_docs() -> Vec<crate::pschema::PDoc> {
         fields.push(PField { number: 307, name: "scr_b".into(), ty: PTy::Scalar(Sc::String), label: Label::Oneof(2) });
         fields.push(PField { number: 304, name: "scr_c".into(), ty: PTy::Scalar(Sc::Bool), label: Label::Oneof(2) });
         fields.push(PField { number: 303, name: "scr_gap".into(), ty: PTy::Scalar(Sc::Uint32), label: Label::Optional });
+        // ... and one whose gap (313) stays undeclared
+        fields.push(PField { number: 312, name: "scr2_a".into(), ty: PTy::Scalar(Sc::Sint32), label: Label::Oneof(3) });
+        fields.push(PField { number: 317, name: "scr2_b".into(), ty: PTy::Scalar(Sc::Bytes), label: Label::Oneof(3) });
+        fields.push(PField { number: 314, name: "scr2_c".into(), ty: PTy::Scalar(Sc::Fixed64), label: Label::Oneof(3) });
         fields.push(PField { number: 536870911, name: "last".into(), ty: PTy::Scalar(Sc::Fixed32), label: Label::Optional });
         // field numbers on both sides of every key-length border (16, 2^11, 2^18, 2^25)
         for (i, num) in [16u32, 17, 262143, 262144, 33554431, 33554432].into_iter().enumerate() {
@@ -479,7 +483,7 @@ pub fn proto_docs() -> Vec<crate::pschema::PDoc> {
         fields.push(PField { number: 2047, name: "two_byte_key_edge".into(), ty: PTy::Scalar(Sc::Uint64), label: Label::Optional });
         fields.push(PField { number: 2048, name: "three_byte_key".into(), ty: PTy::Scalar(Sc::Sfixed64), label: Label::Repeated });
         let small = PEnum { name: "Small".into(), values: vec![("SMALL_ZERO".into(), 0), ("SMALL_ONE".into(), 1), ("SMALL_TWO".into(), 2)] };
-        let all = PMessage { name: "All".into(), fields, oneofs: vec!["pick".into(), "other".into(), "scr".into()], nested: vec![inner], enums: vec![kind, small] };
+        let all = PMessage { name: "All".into(), fields, oneofs: vec!["pick".into(), "other".into(), "scr".into(), "scr2".into()], nested: vec![inner], enums: vec![kind, small] };
         let tree = PMessage {
             name: "Tree".into(),
             fields: vec![
